@@ -1,2 +1,499 @@
-(* C03Proofs.v — lemmas behind props/C03.v *)
-From SV Require Import Base Json MD5 Canon FS Ws WsLemmas WsInit CorrC02 CorrC03.
+(* C03Proofs.v — lemmas behind props/C03.v.
+
+   Store-level refinement.  The abstract state of one workspace is the finite map
+        id |-> sub-tree of the job directory          ([absj f wsd i r] : option node, r the relative path)
+   defined for exactly the names that count as jobs.  Every life-cycle program of Ws.v, under the
+   pre-conditions of its C02 / C04 theorem, acts on this map as the one-line update of the simple model
+   (create / re-key / remove / move / clone / nothing).  [refine_run] lifts the single steps to all finite
+   sequences by induction. *)
+From SV Require Import Base Json MD5 Canon FS Ws WsLemmas WsInit CorrC02 CorrC03 C02Proofs C04Proofs.
+
+(* ------------------------------------------------------------------ which names count as jobs *)
+Lemma id_match_is_id : forall n, id_match n = is_id n.
+Proof.
+  intro n. unfold id_match, is_id.
+  destruct (Nat.eqb (length n) 32) eqn:E.
+  - apply Nat.eqb_eq in E. rewrite E. reflexivity.
+  - simpl. rewrite andb_false_r. reflexivity.
+Qed.
+
+Definition listed (f : fs) (wsd : path) (i : str) : Prop :=
+  get f wsd = Some Dir /\ get f (wsd ++ [i]) <> None /\ is_id i = true.
+
+(* only exactly id-named entries of the workspace count as jobs *)
+Lemma job_dirs_listed : forall f wsd i, In i (job_dirs f wsd) <-> listed f wsd i.
+Proof.
+  intros f wsd i. unfold job_dirs, listdir, listed.
+  destruct (get f wsd) as [[c|]|] eqn:E.
+  - split; [contradiction|]. intros [H _]. discriminate.
+  - rewrite filter_In, In_children, id_match_is_id. rewrite In_keys_lookup.
+    assert (G : get f (wsd ++ [i]) = lookup (wsd ++ [i]) f) by (destruct wsd; reflexivity).
+    rewrite G. split.
+    + intros [[n Hn] Hid]. split; [reflexivity|]. split; [congruence|exact Hid].
+    + intros [_ [Hn Hid]]. split; [|exact Hid]. destruct (lookup (wsd ++ [i]) f); [eauto|congruence].
+  - split; [contradiction|]. intros [H _]. discriminate.
+Qed.
+
+Lemma job_dirs_NoDup : forall f wsd, NoDup (job_dirs f wsd).
+Proof.
+  intros f wsd. unfold job_dirs, listdir. destruct (get f wsd) as [[c|]|]; try constructor.
+  apply NoDup_filter. apply children_NoDup.
+Qed.
+
+Definition listed_b (f : fs) (wsd : path) (i : str) : bool :=
+  isdir f wsd && exists_ f (wsd ++ [i]) && is_id i.
+
+Lemma listed_b_spec : forall f wsd i, listed_b f wsd i = true <-> listed f wsd i.
+Proof.
+  intros f wsd i. unfold listed_b, listed, isdir, exists_. rewrite !andb_true_iff.
+  destruct (get f wsd) as [[c|]|]; destruct (get f (wsd ++ [i])); split; intros [[A B] C] || intros [A [B C]];
+    try discriminate; try congruence; auto.
+  all: try (repeat split; auto; discriminate).
+Qed.
+
+(* the abstraction: the sub-tree of job i (None everywhere when i is not a job) *)
+Definition absj (f : fs) (wsd : path) (i : str) (r : path) : option node :=
+  if listed_b f wsd i then get f ((wsd ++ [i]) ++ r) else None.
+
+(* ------------------------------------------------------------------ the simple model on these maps *)
+Definition amap := str -> path -> option node.
+
+Inductive aop :=
+| ACreate (i : str) (c : content)                 (* a new job holding just its state point file *)
+| ARekey (old new : str) (c : content)            (* the job moves to a new id with a new state point file *)
+| ARemove (i : str)
+| ANop.
+
+Definition astep (a : amap) (o : aop) : amap :=
+  match o with
+  | ACreate i c => fun k r =>
+      if str_eqb k i then
+        match r with
+        | [] => Some Dir
+        | [n] => if str_eqb n SPF then Some (File c) else None
+        | _ => None
+        end
+      else a k r
+  | ARekey old new c => fun k r =>
+      if str_eqb k new then
+        match r with
+        | [n] => if str_eqb n SPF then Some (File c) else if str_eqb n SPT then None else a old r
+        | _ => a old r
+        end
+      else if str_eqb k old then None else a k r
+  | ARemove i => fun k r => if str_eqb k i then None else a k r
+  | ANop => a
+  end.
+
+(* what a concrete step must do to the tree to be a refinement of [o] (these are exactly the get-level
+   post-conditions of C02_init_post, C04_rekey_ok, FS.get_rmtree, and of every read-only / failing step) *)
+Inductive cstep_ok (wsd : path) : fs -> aop -> fs -> Prop :=
+| ok_create : forall f f' i c,
+    get f wsd = Some Dir -> is_id i = true ->
+    (forall q, under (wsd ++ [i]) q = true -> get f q = None) ->
+    get f' (wsd ++ [i]) = Some Dir -> get f' (wsd ++ [i; SPF]) = Some (File c) ->
+    (forall q, q <> wsd ++ [i] -> q <> wsd ++ [i; SPF] -> get f' q = get f q) ->
+    cstep_ok wsd f (ACreate i c) f'
+| ok_rekey : forall f f' old new c,
+    get f wsd = Some Dir -> is_id old = true -> is_id new = true -> old <> new ->
+    get f (wsd ++ [old]) = Some Dir ->
+    (get f (wsd ++ [new]) = None \/ get f (wsd ++ [new]) = Some Dir) ->
+    (forall r, get f' ((wsd ++ [old]) ++ r) = None) ->
+    get f' (wsd ++ [new]) = Some Dir ->
+    get f' ((wsd ++ [new]) ++ [SPF]) = Some (File c) ->
+    get f' ((wsd ++ [new]) ++ [SPT]) = None ->
+    (forall x r, x :: r <> [SPF] -> x :: r <> [SPT] ->
+       get f' ((wsd ++ [new]) ++ x :: r) = get f ((wsd ++ [old]) ++ x :: r)) ->
+    (forall q, under (wsd ++ [old]) q = false -> under (wsd ++ [new]) q = false -> get f' q = get f q) ->
+    cstep_ok wsd f (ARekey old new c) f'
+| ok_remove : forall f f' i,
+    (forall q, get f' q = if under (wsd ++ [i]) q then None else get f q) ->
+    cstep_ok wsd f (ARemove i) f'
+| ok_nop : forall f f', fs_eq f' f -> cstep_ok wsd f ANop f'.
+
+Lemma under_ws_child : forall (wsd : path) i, under (wsd ++ [i]) wsd = false.
+Proof.
+  intros wsd i. destruct (under (wsd ++ [i]) wsd) eqn:E; auto.
+  apply under_spec in E. destruct E as [r E]. rewrite <- app_assoc in E.
+  rewrite <- (app_nil_r wsd) in E at 1. apply app_inv_head in E. discriminate.
+Qed.
+
+Lemma app3 : forall (wsd : path) k r, wsd ++ [k] ++ r = (wsd ++ [k]) ++ r.
+Proof. intros. rewrite <- app_assoc. reflexivity. Qed.
+
+Lemma listed_b_frame : forall f f' wsd k,
+  get f' wsd = get f wsd -> get f' (wsd ++ [k]) = get f (wsd ++ [k]) -> listed_b f' wsd k = listed_b f wsd k.
+Proof. intros f f' wsd k H1 H2. unfold listed_b, isdir, exists_. rewrite H1, H2. reflexivity. Qed.
+
+Lemma neq_len : forall (a b : path), length a <> length b -> a <> b.
+Proof. intros a b H E. subst. auto. Qed.
+
+Lemma refine_create : forall wsd f f' i c k r,
+  get f wsd = Some Dir -> is_id i = true ->
+  (forall q, under (wsd ++ [i]) q = true -> get f q = None) ->
+  get f' (wsd ++ [i]) = Some Dir -> get f' (wsd ++ [i; SPF]) = Some (File c) ->
+  (forall q, q <> wsd ++ [i] -> q <> wsd ++ [i; SPF] -> get f' q = get f q) ->
+  absj f' wsd k r = astep (absj f wsd) (ACreate i c) k r.
+Proof.
+  intros wsd f f' i c k r Hws Hid Hfree Hjd Hfile Hframe. unfold absj. simpl.
+  assert (Hws' : get f' wsd = get f wsd).
+  { apply Hframe; apply neq_len; rewrite !app_length; simpl; lia. }
+  destruct (str_eqb k i) eqn:Ek.
+  - apply str_eqb_eq in Ek. subst k.
+    assert (L : listed_b f' wsd i = true).
+    { unfold listed_b, isdir, exists_. rewrite Hws', Hws, Hjd, Hid. reflexivity. }
+    rewrite L. destruct r as [|n [|m r]].
+    + rewrite app_nil_r. exact Hjd.
+    + destruct (str_eqb n SPF) eqn:En.
+      * apply str_eqb_eq in En. subst n. rewrite <- two_snoc. exact Hfile.
+      * rewrite Hframe.
+        -- apply Hfree. apply under_app.
+        -- apply snoc_neq_self.
+        -- rewrite two_snoc. intro E. apply snoc_inj in E. subst n. rewrite str_eqb_refl in En. discriminate.
+    + rewrite Hframe.
+      * apply Hfree. apply under_app.
+      * apply neq_len. rewrite !app_length. simpl. lia.
+      * apply neq_len. rewrite !app_length. simpl. lia.
+  - apply str_eqb_neq in Ek.
+    assert (Hout : forall q, under (wsd ++ [k]) q = true -> get f' q = get f q).
+    { intros q Hq. apply Hframe.
+      - intro E. subst q. rewrite sibling_not_under in Hq by auto. discriminate.
+      - intro E. subst q.
+        replace (wsd ++ [i; SPF]) with (wsd ++ i :: [SPF]) in Hq by reflexivity.
+        rewrite sibling_not_under_deep in Hq by auto. discriminate. }
+    rewrite (listed_b_frame f f' wsd k Hws' (Hout _ (under_refl _))).
+    destruct (listed_b f wsd k); auto. apply Hout. apply under_app.
+Qed.
+
+Lemma refine_remove : forall wsd f f' i k r,
+  (forall q, get f' q = if under (wsd ++ [i]) q then None else get f q) ->
+  absj f' wsd k r = astep (absj f wsd) (ARemove i) k r.
+Proof.
+  intros wsd f f' i k r Hg. unfold absj. simpl.
+  assert (Hws' : get f' wsd = get f wsd) by (rewrite Hg, under_ws_child; reflexivity).
+  destruct (str_eqb k i) eqn:Ek.
+  - apply str_eqb_eq in Ek. subst k.
+    assert (L : listed_b f' wsd i = false).
+    { unfold listed_b, exists_. rewrite (Hg (wsd ++ [i])), under_refl. rewrite andb_false_r. reflexivity. }
+    rewrite L. reflexivity.
+  - apply str_eqb_neq in Ek.
+    assert (Hout : forall q, under (wsd ++ [k]) q = true -> get f' q = get f q).
+    { intros q Hq. rewrite Hg.
+      destruct (under (wsd ++ [i]) q) eqn:E; auto.
+      destruct (under_comparable (wsd ++ [k]) (wsd ++ [i]) q Hq E) as [H|H];
+        rewrite sibling_not_under in H by auto; discriminate. }
+    rewrite (listed_b_frame f f' wsd k Hws' (Hout _ (under_refl _))).
+    destruct (listed_b f wsd k); auto. apply Hout. apply under_app.
+Qed.
+
+Lemma refine_nop : forall wsd f f' k r, fs_eq f' f -> absj f' wsd k r = absj f wsd k r.
+Proof.
+  intros wsd f f' k r H. unfold absj, listed_b, isdir, exists_. rewrite !H. reflexivity.
+Qed.
+
+Lemma refine_rekey : forall wsd f f' old new c k r,
+  get f wsd = Some Dir -> is_id old = true -> is_id new = true -> old <> new ->
+  get f (wsd ++ [old]) = Some Dir ->
+  (forall rr, get f' ((wsd ++ [old]) ++ rr) = None) ->
+  get f' (wsd ++ [new]) = Some Dir ->
+  get f' ((wsd ++ [new]) ++ [SPF]) = Some (File c) ->
+  get f' ((wsd ++ [new]) ++ [SPT]) = None ->
+  (forall x rr, x :: rr <> [SPF] -> x :: rr <> [SPT] ->
+     get f' ((wsd ++ [new]) ++ x :: rr) = get f ((wsd ++ [old]) ++ x :: rr)) ->
+  (forall q, under (wsd ++ [old]) q = false -> under (wsd ++ [new]) q = false -> get f' q = get f q) ->
+  absj f' wsd k r = astep (absj f wsd) (ARekey old new c) k r.
+Proof.
+  intros wsd f f' old new c k r Hws Hio Hin Hne Hold Hgone Hnd Hnf Hnt Hcarry Hframe. unfold absj. simpl.
+  assert (Hws' : get f' wsd = get f wsd) by (apply Hframe; apply under_ws_child).
+  assert (Lold : listed_b f wsd old = true).
+  { unfold listed_b, isdir, exists_. rewrite Hws, Hold, Hio. reflexivity. }
+  destruct (str_eqb k new) eqn:Ekn.
+  - apply str_eqb_eq in Ekn. subst k.
+    assert (L : listed_b f' wsd new = true).
+    { unfold listed_b, isdir, exists_. rewrite Hws', Hws, Hnd, Hin. reflexivity. }
+    rewrite L, Lold.
+    destruct r as [|n rr].
+    + rewrite !app_nil_r. rewrite Hnd. symmetry. exact Hold.
+    + destruct rr as [|m rr].
+      * destruct (str_eqb n SPF) eqn:E1.
+        -- apply str_eqb_eq in E1. subst n. exact Hnf.
+        -- destruct (str_eqb n SPT) eqn:E2.
+           ++ apply str_eqb_eq in E2. subst n. exact Hnt.
+           ++ apply Hcarry; intro E; inversion E; subst n;
+                [rewrite str_eqb_refl in E1|rewrite str_eqb_refl in E2]; discriminate.
+      * apply Hcarry; discriminate.
+  - apply str_eqb_neq in Ekn.
+    destruct (str_eqb k old) eqn:Eko.
+    + apply str_eqb_eq in Eko. subst k.
+      assert (L : listed_b f' wsd old = false).
+      { unfold listed_b, exists_. rewrite <- (app_nil_r (wsd ++ [old])), Hgone. rewrite andb_false_r. reflexivity. }
+      rewrite L. reflexivity.
+    + apply str_eqb_neq in Eko.
+      assert (Hout : forall q, under (wsd ++ [k]) q = true -> get f' q = get f q).
+      { intros q Hq. apply Hframe.
+        - destruct (under (wsd ++ [old]) q) eqn:E; auto.
+          destruct (under_comparable (wsd ++ [k]) (wsd ++ [old]) q Hq E) as [H|H];
+            rewrite sibling_not_under in H by auto; discriminate.
+        - destruct (under (wsd ++ [new]) q) eqn:E; auto.
+          destruct (under_comparable (wsd ++ [k]) (wsd ++ [new]) q Hq E) as [H|H];
+            rewrite sibling_not_under in H by auto; discriminate. }
+      rewrite (listed_b_frame f f' wsd k Hws' (Hout _ (under_refl _))).
+      destruct (listed_b f wsd k); auto. apply Hout. apply under_app.
+Qed.
+
+(* refine_step: one concrete step that meets its get-level post-condition acts on the abstraction as the
+   simple model's update *)
+Lemma refine_step : forall wsd f o f', cstep_ok wsd f o f' ->
+  forall k r, absj f' wsd k r = astep (absj f wsd) o k r.
+Proof.
+  intros wsd f o f' H k r. destruct H.
+  - apply refine_create; auto.
+  - eapply refine_rekey; eauto.
+  - apply refine_remove; auto.
+  - simpl. apply refine_nop; auto.
+Qed.
+
+(* refine_run: the lift to every finite sequence, by induction *)
+Inductive crun_ok (wsd : path) : fs -> list aop -> fs -> Prop :=
+| run_nil : forall f, crun_ok wsd f [] f
+| run_cons : forall f o f1 os f2, cstep_ok wsd f o f1 -> crun_ok wsd f1 os f2 -> crun_ok wsd f (o :: os) f2.
+
+Definition astep_ext (a b : amap) : Prop := forall k r, a k r = b k r.
+
+Lemma astep_proper : forall a b o, astep_ext a b -> astep_ext (astep a o) (astep b o).
+Proof.
+  intros a b o H k r. destruct o; simpl.
+  - destruct (str_eqb k i); auto.
+  - destruct (str_eqb k new).
+    + destruct r as [|n [|m rr]]; auto. destruct (str_eqb n SPF); auto. destruct (str_eqb n SPT); auto.
+    + destruct (str_eqb k old); auto.
+  - destruct (str_eqb k i); auto.
+  - auto.
+Qed.
+
+Lemma refine_run : forall wsd ops f f', crun_ok wsd f ops f' ->
+  forall k r, absj f' wsd k r = fold_left astep ops (absj f wsd) k r.
+Proof.
+  intros wsd ops. induction ops as [|o ops IH]; intros f f' H k r.
+  - inversion H; subst. reflexivity.
+  - inversion H as [|? ? f1 ? ? Hs Hr]; subst. simpl. rewrite (IH f1 f' Hr).
+    assert (G : forall a b, astep_ext a b -> forall l, astep_ext (fold_left astep l a) (fold_left astep l b)).
+    { intros a b Hab l. revert a b Hab. induction l as [|x l IHl]; intros a b Hab; simpl; auto.
+      apply IHl. apply astep_proper. exact Hab. }
+    apply G. intros k' r'. apply (refine_step wsd f o f1 Hs).
+Qed.
+
+(* ------------------------------------------------------------------ the concrete programs meet the step conditions *)
+Section Concrete.
+  Variable frepr : fl -> str.
+
+  Lemma calc_id_is_id : forall v, is_id (calc_id frepr v) = true.
+  Proof.
+    intro v. unfold is_id, calc_id. destruct (md5_hex_shape (canon frepr v)) as [Hl Hh].
+    rewrite Hl, Hh. reflexivity.
+  Qed.
+
+  (* Job.init on a clean place = create *)
+  Lemma init_refines_create : forall w h sp,
+    (h < length (w_hs w))%nat ->
+    h_cell (getH w h) = None -> h_cached (getH w h) = Some sp -> h_id (getH w h) = calc_id frepr sp ->
+    let wsd := wsp (getS w (h_s (getH w h))) in
+    (forall k, (k <= length wsd)%nat -> get (w_fs w) (firstn k wsd) = Some Dir) ->
+    (forall q, under (wsd ++ [h_id (getH w h)]) q = true -> get (w_fs w) q = None) ->
+    exists w', init frepr false false w h = (w', inl tt) /\
+      cstep_ok wsd (w_fs w) (ACreate (h_id (getH w h)) (sp_content frepr sp)) (w_fs w').
+  Proof.
+    intros w h sp Hlt Hc Hca Hid wsd Hchain Hfree.
+    destruct (init_fresh_post frepr w h sp Hlt Hc Hca Hid Hchain Hfree) as [w' [Hi [Hjd [Hf [_ Hfr]]]]].
+    exists w'. split; [exact Hi|]. fold wsd in Hjd, Hf, Hfr.
+    apply ok_create; auto.
+    - specialize (Hchain (length wsd) (le_n _)). rewrite firstn_all in Hchain. exact Hchain.
+    - rewrite Hid. apply calc_id_is_id.
+    - rewrite two_snoc. exact Hf.
+    - intros q H1 H2. apply Hfr; auto. rewrite <- two_snoc. exact H2.
+  Qed.
+
+  (* Job.init on a valid job = nothing *)
+  Lemma init_refines_nop : forall susp force w h wsd,
+    (let '(w1, r) := sp_access frepr w h in
+     exists ci v, r = inl ci /\ load_file frepr w1 (getH w1 h) = inl v) ->
+    cstep_ok wsd (w_fs w) ANop (w_fs (fst (init frepr susp force w h))).
+  Proof.
+    intros susp force w h wsd H. pose proof (init_valid_no_write frepr susp force w h H) as G.
+    destruct (init frepr susp force w h) as [w' r']. destruct G as [_ [Hfs _]]. simpl.
+    apply ok_nop. rewrite Hfs. apply fs_eq_refl.
+  Qed.
+
+  (* every read-only operation = nothing *)
+  Lemma readonly_refines_nop : forall w q o wsd,
+    readonly o = true -> cstep_ok wsd (w_fs w) ANop (w_fs (fst (fst (step frepr w q o)))).
+  Proof.
+    intros w q o wsd H. pose proof (readonly_no_fs_effect frepr w q o H) as G.
+    destruct (step frepr w q o) as [[w1 q1] out]. destruct G as [Hfs _]. simpl.
+    apply ok_nop. rewrite Hfs. apply fs_eq_refl.
+  Qed.
+
+  (* the successful re-key = ARekey; the conflicting one = nothing *)
+  Lemma sp_save_refines_rekey : forall w ci cf,
+    let c := getC w ci in
+    let js := c_jobs c in
+    let h0 := getH w (hd 0%nat js) in
+    let old := h_id h0 in
+    let new := calc_id frepr (c_data c) in
+    let wsd := wsp (getS w (h_s h0)) in
+    let src := wsd ++ [old] in
+    let dst := wsd ++ [new] in
+    old <> new -> is_id old = true ->
+    js <> [] ->
+    (forall j, In j js -> (j < length (w_hs w))%nat /\ h_cell (getH w j) = Some ci /\ h_s (getH w j) = h_s h0) ->
+    getCF w ci = src ++ [SPF] ->
+    get (w_fs w) (src ++ [SPF]) = Some (File cf) ->
+    get (w_fs w) (src ++ [SPT]) = None -> get (w_fs w) (src ++ [TMPPFX ++ SPF]) = None ->
+    get (w_fs w) src = Some Dir -> get (w_fs w) wsd = Some Dir ->
+    (get (w_fs w) dst = None \/ get (w_fs w) dst = Some Dir) -> has_children (w_fs w) dst = false ->
+    exists w', sp_save frepr false w ci = (w', inl tt) /\
+      cstep_ok wsd (w_fs w) (ARekey old new (sp_content frepr (c_data c))) (w_fs w').
+  Proof.
+    intros w ci cf c js h0 old new wsd src dst Hne Hio Hjs Hall HCF Hfile Htmp Htmp2 Hsrc Hws Hdst Hkids.
+    destruct (rekey_ok frepr w ci cf Hne Hjs Hall HCF Hfile Htmp Htmp2 Hsrc Hws Hdst Hkids)
+      as [w' [E [Hgone [Hnd [Hnf [Hnt [Hcarry [Hframe _]]]]]]]].
+    exists w'. split; [exact E|].
+    eapply ok_rekey; eauto. apply calc_id_is_id.
+  Qed.
+
+  Lemma sp_save_conflict_refines_nop : forall w ci cf,
+    let c := getC w ci in
+    let h0 := getH w (hd 0%nat (c_jobs c)) in
+    let old := h_id h0 in
+    let new := calc_id frepr (c_data c) in
+    let wsd := wsp (getS w (h_s h0)) in
+    old <> new ->
+    getCF w ci = wsd ++ [old; SPF] ->
+    get (w_fs w) (wsd ++ [old; SPF]) = Some (File cf) ->
+    get (w_fs w) (wsd ++ [old; SPT]) = None ->
+    get (w_fs w) (wsd ++ [old]) = Some Dir -> get (w_fs w) wsd = Some Dir ->
+    get (w_fs w) (wsd ++ [new]) = Some Dir -> has_children (w_fs w) (wsd ++ [new]) = true ->
+    exists w', sp_save frepr false w ci = (w', inr (FExn EDestinationExists)) /\
+      cstep_ok wsd (w_fs w) ANop (w_fs w').
+  Proof.
+    intros w ci cf c h0 old new wsd H1 H0 H2 H3 H4 H5 H6 H7.
+    destruct (rekey_conflict frepr w ci cf H1 H0 H2 H3 H4 H5 H6 H7) as [w' [E [Hfs _]]].
+    exists w'. split; [exact E|]. apply ok_nop. exact Hfs.
+  Qed.
+
+  (* Job.remove() of an existing job directory, through a handle that holds no document object = ARemove *)
+  Lemma remove_refines_remove : forall w h,
+    let jd := jobdir w (getH w h) in
+    get (w_fs w) jd = Some Dir -> jd <> [] -> getHD w h = None ->
+    exists w', remove_job frepr w h = (w', inl tt) /\
+      cstep_ok (wsp (getS w (h_s (getH w h)))) (w_fs w) (ARemove (h_id (getH w h))) (w_fs w').
+  Proof.
+    intros w h jd Hjd Hne Hhd. unfold remove_job. fold jd.
+    assert (R : rmtree (w_fs w) jd = FOk (del_under jd (w_fs w))).
+    { unfold rmtree. destruct jd; [contradiction|]. rewrite Hjd. reflexivity. }
+    rewrite R. simpl. change (getHD (set_fs w (del_under jd (w_fs w)) [EvRmtree jd]) h) with (getHD w h). rewrite Hhd.
+    eexists. split; [reflexivity|]. apply ok_remove. intro q. simpl.
+    apply (get_rmtree (w_fs w) jd _ q R).
+  Qed.
+End Concrete.
+
+(* ------------------------------------------------------------------ len = |iteration| = membership in the model *)
+Lemma len_is_length_of_ids : forall frepr w q s,
+  snd (step frepr w q (OLen s)) =
+  VNum (N.of_nat (length (match snd (step frepr w q (OIds s)) with VStrs l => l | _ => [] end))).
+Proof. reflexivity. Qed.
+
+Lemma contains_iff_listed : forall f wsd i, is_id i = true -> get f wsd = Some Dir ->
+  (exists_ f (wsd ++ [i]) = true <-> In i (job_dirs f wsd)).
+Proof.
+  intros f wsd i Hid Hws. rewrite job_dirs_listed. unfold listed, exists_.
+  destruct (get f (wsd ++ [i])); split; intro H; try discriminate; auto.
+  - repeat split; auto. discriminate.
+  - destruct H as [_ [H _]]. contradiction.
+Qed.
+
+(* the fresh view has exactly one row per listed name, and check() is about the same names *)
+Lemma view_ids : forall frepr f r, map v_id (view frepr f r) = job_dirs f (r ++ [WS]).
+Proof. intros. unfold view. rewrite map_map. simpl. apply map_id. Qed.
+
+(* ------------------------------------------------------------------ witnesses: where the public operations
+   do NOT act as the simple model (each replayed on the real signac by harness/c03.py, SCRIPTS) *)
+Definition xB : str := [98%N].
+Definition xa0 : json := JObj [(kA, JInt 0)].
+Definition xa1 : json := JObj [(kA, JInt 1)].
+Definition xa2 : json := JObj [(kA, JInt 2)].
+Definition xa1b0 : json := JObj [(kA, JInt 1); (xB, JInt 0)].
+Definition xwB : path := [[66%N]].
+Definition xid (v : json) : str := calc_id wfr v.
+
+(* a rejected state point change (DestinationExistsError) is applied by the next change: the job {a:0} ends up as {a:1,b:0} *)
+Lemma dirty_witness :
+  run wfr w0 0 [ONewSession wA; OOpenSp 0 xa0; OInit 0 false; OOpenSp 0 xa1; OInit 1 false;
+                OEdit 0 [] (ESetKey kA (JInt 1)); OEdit 0 [] (ESetKey xB (JInt 0)); OIds 0]
+  = [VUnit; VStr (xid xa0); VUnit; VStr (xid xa1); VUnit; VExn EDestinationExists; VUnit;
+     VStrs [xid xa1; xid xa1b0]].
+Proof. vm_compute. reflexivity. Qed.
+
+(* two handles of one job: after one re-keys it, a change through the other raises the lock registry's KeyError *)
+Lemma lock_witness :
+  run wfr w0 0 [ONewSession wA; OOpenSp 0 xa0; OInit 0 false; OOpenSp 0 xa0; OSp 1;
+                OEdit 0 [] (ESetKey kA (JInt 1)); OEdit 1 [] (ESetKey xB (JInt 0))]
+  = [VUnit; VStr (xid xa0); VUnit; VStr (xid xa0); VJson xa0; VUnit; VExn EKeyError].
+Proof. vm_compute. reflexivity. Qed.
+
+(* a by-id handle that never loaded its state point: init() after the job was removed raises and leaves an
+   empty id-named directory: it is listed and check() fails *)
+Lemma lazy_witness :
+  run wfr w0 0 [ONewSession wA; OOpenSp 0 xa0; OInit 0 false; ONewSession wA; OOpenId 1 (xid xa0); ORemove 0;
+                OInit 1 false; OCheck 0; OIds 0]
+  = [VUnit; VStr (xid xa0); VUnit; VUnit; VStr (xid xa0); VUnit; VExn EJobsCorrupted; VExn EJobsCorrupted;
+     VStrs [xid xa0]].
+Proof. vm_compute. reflexivity. Qed.
+
+(* a second handle keeps its document object over remove() + init() through the first: its next write resurrects
+   the removed job's document *)
+Lemma stale_doc_witness :
+  run wfr w0 0 [ONewSession wA; OOpenSp 0 xa0; OInit 0 false; ODocSet 0 kA (JInt 1); OOpenSp 0 xa0; ODoc 1;
+                ORemove 0; OInit 0 false; ODocSet 1 xB (JInt 2); ODoc 0]
+  = [VUnit; VStr (xid xa0); VUnit; VUnit; VStr (xid xa0); VJson (JObj [(kA, JInt 1)]); VUnit; VUnit; VUnit;
+     VJson (JObj [(kA, JInt 1); (xB, JInt 2)])].
+Proof. vm_compute. reflexivity. Qed.
+
+(* after move(), a change through a shallow copy of the moved handle gives the MOVED handle the new id although its
+   job in the destination project keeps the old one *)
+Lemma moved_copy_witness :
+  run wfr w0 0 [ONewSession wA; ONewSession xwB; OOpenSp 0 xa0; OInit 0 false; OSp 0; OCopy 0; OMove 0 1;
+                OEdit 1 [] (ESetKey kA (JInt 2)); OIdPath 0; OIds 1; OIds 0]
+  = [VUnit; VUnit; VStr (xid xa0); VUnit; VJson xa0; VStr (xid xa0); VUnit; VUnit;
+     VIdPath (xid xa2) (xwB ++ [WS; xid xa2]); VStrs [xid xa0]; VStrs []].
+Proof. vm_compute. reflexivity. Qed.
+
+(* no backup / temp file after a successful re-key *)
+Lemma rekey_leaves_no_temp : forall frepr w ci cf,
+  let c := getC w ci in
+  let js := c_jobs c in
+  let h0 := getH w (hd 0%nat js) in
+  let old := h_id h0 in
+  let new := calc_id frepr (c_data c) in
+  let wsd := wsp (getS w (h_s h0)) in
+  let src := wsd ++ [old] in
+  let dst := wsd ++ [new] in
+  old <> new -> js <> [] ->
+  (forall j, In j js -> (j < length (w_hs w))%nat /\ h_cell (getH w j) = Some ci /\ h_s (getH w j) = h_s h0) ->
+  getCF w ci = src ++ [SPF] ->
+  get (w_fs w) (src ++ [SPF]) = Some (File cf) ->
+  get (w_fs w) (src ++ [SPT]) = None -> get (w_fs w) (src ++ [TMPPFX ++ SPF]) = None ->
+  get (w_fs w) src = Some Dir -> get (w_fs w) wsd = Some Dir ->
+  (get (w_fs w) dst = None \/ get (w_fs w) dst = Some Dir) -> has_children (w_fs w) dst = false ->
+  exists w', sp_save frepr false w ci = (w', inl tt) /\
+    get (w_fs w') (dst ++ [SPT]) = None /\ get (w_fs w') (dst ++ [TMPPFX ++ SPF]) = None /\
+    (forall r, get (w_fs w') (src ++ r) = None).
+Proof.
+  intros frepr w ci cf c js h0 old new wsd src dst Hne Hjs Hall HCF Hfile Htmp Htmp2 Hsrc Hws Hdst Hkids.
+  destruct (rekey_ok frepr w ci cf Hne Hjs Hall HCF Hfile Htmp Htmp2 Hsrc Hws Hdst Hkids)
+    as [w' [E [Hgone [_ [_ [Hnt [Hcarry _]]]]]]].
+  exists w'. split; [exact E|]. split; [exact Hnt|]. split; [|exact Hgone].
+  subst dst src wsd new old h0 js c. etransitivity; [apply (Hcarry (TMPPFX ++ SPF) [])|exact Htmp2].
+  - intro H. inversion H.
+  - intro H. inversion H.
+Qed.
